@@ -46,7 +46,7 @@ SEEDS = {
     'H-F3': ('C05', 'quick', ['u_set_seq']),
     'H-F4': ('C13', 'quick', ['d_gate_small']),
     'H-F5': ('C12', 'quick', ['t_no_trailing_byte']),
-    'H-F6': ('C05', 'quick', ['u_remove_insert']),
+    'H-F6': ('C05', 'quick', ['u_remove_insert_key_ins']),
     'H-F7F9': ('C08', 'quick', ['u_insert_raw', 'u_set_public_key']),
     'H-F8': ('C05', 'quick', ['u_build_raw']),
 }
